@@ -253,6 +253,13 @@ func WithPrelude(r *simrt.RNG, s string, k int) (string, bool) {
 	return Preludes[r.Intn(len(Preludes))] + s, true
 }
 
+// msgAtoms are pieces of a message body.
+var msgAtoms = []string{
+	"Hello ", "world", " ", "{$x}", "{$x.y}", "{$x|escapeUri}", "{print $y}", "<b>", "</b>", "<a href=\"{$x}\">", "</a>", "<br/>", "<img src=\"s\"/>",
+	"1 < 2", "<-", "<{$x}>", "</", "<>", "< b>", "<b", "<!--", "&lt;", " > ", "<<", "a<b>c", "<1>", "{lb}0{rb}", "{sp}", "{nil}", "{\\n}",
+	"{default}", "{case 2}", "{/plural}", "{plural $n}", "{call .t /}", "{if $x}", "{/if}", "{msg desc=\"\"}", "//c\n", "/* c */", "'", "\"", "{", "}",
+}
+
 // Skeleton builds a structurally plausible file: namespace, aliases, a few documented templates
 // whose bodies are short tag sequences with calls to names from the same tiny pool.
 func Skeleton(r *simrt.RNG) string {
@@ -290,6 +297,15 @@ func Skeleton(r *simrt.RNG) string {
 					sb.WriteString("{call " + callee + " data=\"all\"}{param a: 1 /}{/call}")
 				default:
 					sb.WriteString("{call " + callee + "}")
+				}
+			} else if r.Intn(4) == 0 {
+				// a whole message: its body has a sub-parser of its own (text, html tags, placeholders, plural)
+				sb.WriteString([]string{"{msg desc=\"d\"}", "{msg meaning=\"m\" desc=\"\"}", "{msg desc=\"\"}{plural $n}{case 1}"}[r.Intn(3)])
+				for k, nk := 0, 1+r.Intn(4); k < nk; k++ {
+					sb.WriteString(msgAtoms[r.Intn(len(msgAtoms))])
+				}
+				if r.Intn(10) != 0 {
+					sb.WriteString("{/msg}")
 				}
 			} else {
 				sb.WriteString(bodyTags[r.Intn(len(bodyTags))])
